@@ -53,7 +53,7 @@ func gen(r *rand.Rand) scenario {
 
 func TestC10CloseIsFinal(t *testing.T) {
 	e := vrun.LoadEnv()
-	meta := vrun.Meta{Property: "C10", Workload: "TestC10CloseIsFinal", Total: e.Pick(300, 6000),
+	meta := vrun.Meta{Property: "C10", Workload: "TestC10CloseIsFinal", Total: e.Pick(300, 80000),
 		Rule: "virtual time: generated prefix history (0-2 upstreams with writes, 0-2 downstreams with unread chunks buffered, unread incoming calls, a drawn subset of {ReadDataPoints, ReadMetadata, ReceiveCall, ReceiveReplyCall, SendCallAndWaitReplayCall, OpenUpstream, SendBaseTime} pending at the moment of closing), then Close in one of the orders {streams then conn, conn only with streams left open, stream Close twice then conn} from 1-4 goroutines at once, optionally during an outage {dead link not yet detected, redial refused, redial whose ConnectResponse is withheld, resume response withheld}. Oracle: (a) after Close returned every public method of the closed object returns within 1 virtual second (context deadline 10 s), does not panic, does not succeed, and its error is errors.Is ErrConnectionClosed or ErrStreamClosed (hence ErrISCP); (b) after the client's Disconnect the broker sees nothing but Ping/Pong from it and no new dial happens; (c) closed notifications at most once per object; (d) after the broker side is closed too and 5 virtual minutes have passed, no goroutine created by the library is alive in the bubble. non-trivial = at least one stream or pending call existed at close; distinct = scenario tuple",
 		Assumptions: []string{"repeating Close itself is judged only for not panicking, not blocking and not notifying again (its error value is not judged)",
 			"'promptly' is judged as: returns within 1 s of virtual time although its context would allow 10 s",
